@@ -572,3 +572,9 @@ def replay(ctx, doc):
     why = oracle(i["base"], i["cwd"], i["arg"], i.get("cdup_form", False), got)
     print("implementation:", got, "->", why)
     return why is not None
+
+
+# the long-lived process: the operator re-points a base directory between sessions (props/history.py)
+from props import history as _history  # noqa: E402
+
+correspondence, search, replay = _history.attach(PID, correspondence, search, replay, pasts=[])
